@@ -13,6 +13,7 @@ namespace CMacVerif.Atomics
 def pcHoldS : PC → Nat → Nat
   | .getCount j _, i => ind (i = j)
   | .getMax j _ _, i => ind (i = j)
+  | .getMaxCas j _ _ _, i => ind (i = j)
   | .getTotal j _, i => ind (i = j)
   | .freeReset j, i => ind (i = j)
   | .freeUnlock j, i => ind (i = j)
@@ -22,7 +23,7 @@ def pcHoldS : PC → Nat → Nat
   | .addBody _ _ _, _ | .addUnlock _ _ _, _ | .popLock _ _, _ | .popInit _, _ | .popScan _ _, _
   | .popRemove _ _ _, _ | .popUnlock _ _, _ | .qsz _, _ | .cInc _, _ | .cDec _, _ | .cPostInc _, _
   | .cPreAdd _ _, _ | .cPostAdd _ _, _ | .cPreSub _ _, _ | .cLoad _, _ | .lfLoad _ _, _
-  | .lfCas _ _ _, _ => 0
+  | .lfCas _ _ _, _ | .cMax _ _, _ | .cMaxCas _ _ _, _ | .cLoadMx _, _ => 0
 
 /-- how many times thread `th` holds slot `i`: in the caller's hands, or between the
 successful CAS and the return of `get`, or between the call of `free` and its CAS -/
@@ -32,7 +33,7 @@ def SlotInv (s : State) : Prop := ∀ i, sumT (holdS i) s.threads = (s.mem.flags
 
 /-- the slot index a program counter refers to -/
 def pcSlot : PC → Option Nat
-  | .getCas j _ | .getCount j _ | .getMax j _ _ | .getTotal j _ | .freeReset j | .freeUnlock j
+  | .getCas j _ | .getCount j _ | .getMax j _ _ | .getMaxCas j _ _ _ | .getTotal j _ | .freeReset j | .freeUnlock j
   | .apFill j _ | .apPlace j _ => some j
   | _ => none
 
@@ -357,6 +358,7 @@ def pendPC : PC → Nat
   | .getCas _ r => pendO r
   | .getCount _ r => pendO r
   | .getMax _ _ r => pendO r
+  | .getMaxCas _ _ _ r => pendO r
   | .getTotal _ r => pendO r
   | .apPlace _ r => r
   | .crashed r => r
